@@ -191,11 +191,12 @@ def evaluate(t, env, W, cv=dec, double=False):
 
 
 def pure_unsigned(t):
-    """an integer sub-expression built from unsigned variables and
-    non-negative integer constants only: its value has to fit the unsigned
-    range as well, i.e. must not be negative"""
+    """a sub-expression built from unsigned variables and non-negative
+    constants only (fixed-point variables are signed): as in C01 such an
+    operation is unsigned, its value has to fit the unsigned range as well,
+    i.e. must not be negative"""
     if t[0] == "const":
-        return not isinstance(t[1], float) and t[1] >= 0
+        return t[1] >= 0
     if is_leaf(t):
         return not ltype(t)[1]
     return pure_unsigned(t[1]) and pure_unsigned(t[2])
@@ -337,8 +338,20 @@ def build(tree, dest, alias, res, wide_sw=False):
                 f"harness error while building {tree!r} -> {dest!r}: {ex!r} "
                 f"at {tb[-1].filename}:{tb[-1].lineno}")
         name = type(ex).__name__
-        res.count("rejected_by_generator")
-        res.outcomes.add("rejected:" + name)
+        if name in REJECTIONS or "/ebpfcat/" not in tb[-1].filename:
+            res.count("rejected_by_generator")
+            res.outcomes.add("rejected:" + name)
+            return None
+        # an internal error of the generator, not a deliberate refusal
+        res.count("generator_crashed")
+        res.outcomes.add("crashed:" + name)
+        res.violation(dict(tree=tree, dest=dest, alias=alias, env=[]),
+                      "program is generated (or refused with AssembleError/"
+                      "TypeError)", f"{name}: {ex} at "
+                      f"{os.path.basename(tb[-1].filename)}:{tb[-1].name}",
+                      sig=core.digest(["crash", name, tb[-1].name,
+                                       shape(tree), dest]),
+                      note="generator crashes with an internal error")
         return None
 
 
@@ -379,16 +392,6 @@ def inexact(c):
     return isinstance(c, float) and int(c * FB) != dec(c) * FB
 
 
-def tree_ops(t, out=None):
-    if out is None:
-        out = set()
-    if not is_leaf(t):
-        out.add(t[0])
-        tree_ops(t[1], out)
-        tree_ops(t[2], out)
-    return out
-
-
 def shape(t):
     if t[0] == "const":
         v = t[1]
@@ -396,6 +399,8 @@ def shape(t):
                 "neg" if v < 0 else "pos")
     if is_leaf(t):
         return t[:2]
+    if t[0] == "cmp":
+        return ("cmp", t[1], shape(t[2]), shape(t[3]))
     return (t[0],) + tuple(shape(s) for s in t[1:])
 
 
@@ -916,8 +921,9 @@ def items_for(ctx):
         cmps = [">", "=="]
     else:
         l2 = [("reg", "x"), ("loc", "x"), ("reg", "sr"), ("reg", "w"),
-              ("const", 2.5), ("const", 0.29), ("const", 3)]
-        d2 = [("reg", "x"), ("reg", "sr"), ("loc", "i")]
+              ("loc", "h"), ("const", 2.5), ("const", 0.29), ("const", -2.5),
+              ("const", 3)]
+        d2 = [("reg", "x"), ("reg", "sr"), ("loc", "i"), ("loc", "x")]
         cap = 250
         cmps = list(CMP)
     m = 0
@@ -995,6 +1001,10 @@ def run(ctx):
         "doubly scaled value (times 10^10) for a product of two fixed-point "
         "values and for the numerator of a true division; otherwise the case "
         "is executed and counted but not judged",
+        "as in C01 a sub-expression built only from unsigned integer "
+        "variables and non-negative constants is an unsigned operation: a "
+        "negative exact value of it does not fit and puts the case outside "
+        "the precondition (fixed-point variables are signed)",
         "an intermediate fixed-point product or quotient may be carried "
         "exactly or dropped to the 1/100000 grid (toward zero or toward minus "
         "infinity); floor division and remainder accept both roundings; the "
